@@ -182,7 +182,11 @@ func Main(m *testing.M) {
 	_ = os.Setenv("XDG_CONFIG_HOME", filepath.Join(home, ".config"))
 	_ = os.Setenv("TZ", "UTC")
 	time.Local = time.UTC
-	_ = os.Chdir(cwd)
+	if os.Getenv("VERIF_FUZZ") == "" {
+		// (under go test -fuzz the working directory stays the package directory: the engine writes a failing input to
+		// testdata/fuzz below it, and the driver moves it to the replay directory)
+		_ = os.Chdir(cwd)
+	}
 	if devnull, err := os.Open(os.DevNull); err == nil {
 		os.Stdin = devnull
 	}
